@@ -93,6 +93,26 @@ func bindResults(env *Env, res Val, fn *ssa.Function, sig *types.Signature) {
 	}
 }
 
+// ghostAsserts: ghost assertions of the caller's contract placed before the ord-th call of short: proved here,
+// then assumed.
+func (e *Engine) ghostAsserts(fr *Frame, st *State, short string, ord int, pos token.Pos) {
+	if fr == nil || !fr.top || e.contract == nil || e.quiet != 0 {
+		return
+	}
+	for i, aa := range e.contract.Asserts {
+		name := short
+		if j := strings.LastIndex(short, "."); j >= 0 {
+			name = short[j+1:]
+		}
+		if (aa.Callee == short || aa.Callee == name) && aa.N == ord {
+			aenv := e.envAt(fr, st, pos)
+			goal := e.evalClause(aenv, aa.Clause)
+			e.oblige("assert", fmt.Sprintf("assert[%s#%d/%s]", name, ord, clauseName(aa.Clause, i)), st.guard, goal, pos)
+			e.assumps = append(e.assumps, Assump{T: Implies(st.guard, goal), Tag: "lemma"})
+		}
+	}
+}
+
 // callContract: modular treatment of a call.
 func (e *Engine) callContract(fr *Frame, st *State, callee *ssa.Function, ct *Contract, key string, args []Val, sig *types.Signature, rt types.Type, pos token.Pos, iface bool) Val {
 	short := key
@@ -102,36 +122,9 @@ func (e *Engine) callContract(fr *Frame, st *State, callee *ssa.Function, ct *Co
 	ord := e.ordinal("call " + short)
 	// a callee verified with the other integer semantics may be used only if the clauses the caller sees
 	// mean the same in both (no arithmetic: comparisons, lengths, constants, boolean structure only)
-	if ct.ModeSet && ct.Mode != e.ar.mode && !ct.Trusted {
-		for _, c := range ct.Requires {
-			if !modeAgnostic(c.Expr) {
-				unsupp("call to %s: callee contract is in %s mode and its clause %q uses arithmetic", key, ct.Mode, c.Src)
-			}
-		}
-		for _, c := range ct.Ensures {
-			if strings.HasPrefix(c.Label, "local-") {
-				continue
-			}
-			if !modeAgnostic(c.Expr) {
-				unsupp("call to %s: callee contract is in %s mode and its clause [%s] uses arithmetic; mark it local- or use one mode", key, ct.Mode, c.Label)
-			}
-		}
-	}
-	// ghost assertions of the caller's contract placed before this call: proved here, then assumed
-	if fr != nil && fr.top && e.contract != nil && e.quiet == 0 {
-		for i, aa := range e.contract.Asserts {
-			name := short
-			if j := strings.LastIndex(short, "."); j >= 0 {
-				name = short[j+1:]
-			}
-			if (aa.Callee == short || aa.Callee == name) && aa.N == ord {
-				aenv := e.envAt(fr, st, pos)
-				goal := e.evalClause(aenv, aa.Clause)
-				e.oblige("assert", fmt.Sprintf("assert[%s#%d/%s]", name, ord, clauseName(aa.Clause, i)), st.guard, goal, pos)
-				e.assumps = append(e.assumps, Assump{T: Implies(st.guard, goal), Tag: "lemma"})
-			}
-		}
-	}
+	// (such a requires clause becomes an obligation that cannot be discharged; such an ensures clause is not assumed)
+	cross := ct.ModeSet && ct.Mode != e.ar.mode && !ct.Trusted
+	e.ghostAsserts(fr, st, short, ord, pos)
 	pre := st.clone()
 	env := e.calleeEnv(pre, pre, ct, callee, args)
 	if callee == nil {
@@ -152,6 +145,11 @@ func (e *Engine) callContract(fr *Frame, st *State, callee *ssa.Function, ct *Co
 		if strings.HasPrefix(c.Label, "data-") {
 			// representation invariant of package-level tables: established by the ground data check of the same name
 			e.assume(Implies(st.guard, goal))
+			continue
+		}
+		if cross && !modeAgnostic(c.Expr) {
+			e.note("call to %s: precondition [%s] is stated in %s mode with arithmetic: undecidable from a %s-mode caller", key, clauseName(c, i), ct.Mode, e.ar.mode)
+			e.oblige("call-pre", fmt.Sprintf("call %s#%d/requires[%s]", short, ord, clauseName(c, i)), st.guard, TFalse, pos)
 			continue
 		}
 		e.oblige("call-pre", fmt.Sprintf("call %s#%d/requires[%s]", short, ord, clauseName(c, i)), st.guard, goal, pos)
@@ -196,6 +194,9 @@ func (e *Engine) callContract(fr *Frame, st *State, callee *ssa.Function, ct *Co
 	for _, c := range ct.Ensures {
 		if strings.HasPrefix(c.Label, "local-") {
 			continue // proved for the callee, deliberately not exported to callers (avoids matching loops)
+		}
+		if cross && !modeAgnostic(c.Expr) {
+			continue // verified with the other integer semantics: not usable here
 		}
 		e.assume(Implies(st.guard, e.evalClause(post, c)))
 	}
